@@ -19,6 +19,7 @@ import (
 	"strings"
 	"sync"
 
+	kbhosts "github.com/kevinburke/hostsfile/lib"
 	"github.com/saucelabs/forwarder"
 	"github.com/saucelabs/forwarder/hostsfile"
 	"golang.org/x/net/idna"
@@ -330,7 +331,9 @@ var partyHosts = []string{"origin.test", "other.test", "www.direct.test", "local
 	"\u24de\u24e1igin.test" /* circled o,r: origin.test */, "\uff4f\uff54\uff48\uff45\uff52.test" /* fullwidth: other.test */,
 	"\u24dbocalhost" /* circled l: localhost */, "www.\u24d3irect.test" /* www.direct.test */, "b\u00fccher.test" /* xn--bcher-kva.test */,
 	// fully qualified spellings
-	"origin.test.", "localhost.", "\u24de\u24e1igin.test."}
+	"origin.test.", "localhost.", "\u24de\u24e1igin.test.",
+	// loopback aliases of the injected hosts file, in several spellings, and a name that only looks like one
+	"DESKTOP-7QK", "desktop-7qk", "Desktop-7qk.", "dev-box.local", "DEV-BOX.LOCAL", "ip6-loop-c05", "Mixed.Case.Example", "notlocal-c05"}
 
 // punyForm is what httpguts.PunycodeHostPort writes for a non-ASCII host: idna.ToASCII, the plain Punycode
 // profile without compatibility mapping (the name itself when it is ASCII or the conversion fails).
@@ -363,6 +366,9 @@ var proxyHostPorts = []string{"pa.test:3128", "pb.test:8443", "pa.test:80", "10.
 var directPool = []string{`origin\.test`, `^origin\.test$`, `xn--`, `\.test$`, `-other\.test`, `^www\.`, `localhost`, `direct`, `^10\.`, `-^origin`, `127\.0\.0\.1`, `(?i)LOCALHOST`}
 
 func genPacValue(r *rng.R) string {
+	if r.Chance(1, 8) { // different SOCKS5 proxies for different targets of one configuration
+		return "SOCKS5 " + r.Pick([]string{"pa.test:1080", "pb.test:1081", "10.9.9.9:1080", "pa.test:80"})
+	}
 	switch r.Intn(10) {
 	case 0:
 		return genPacString(r)
@@ -494,6 +500,8 @@ func isLocalish(h string) bool {
 }
 
 // ---------------------------------------------------------------- fcases / ecases
+var hostAliases []string // hostsfile.LocalhostAliases() of the injected hosts file (as the public API returns them)
+
 func coqCfgd(d cfgDesc, pacRes string, directRes string, isLH bool, hostname string) string {
 	idnaT, punyT := "(@nil (list N * list N))", "(@nil (list N * list N))"
 	if a := asciiForm(hostname); a != hostname {
@@ -511,8 +519,8 @@ func coqCfgd(d cfgDesc, pacRes string, directRes string, isLH bool, hostname str
 	if d.UpFunc != "" {
 		uf = "(Some " + coqPresult(d.upFuncAnswer(hostname)) + ")"
 	}
-	return fmt.Sprintf("{| d_upfunc := %s; d_upstream := %s; d_pac := %s; d_direct := %s; d_lh_mode := %s; d_is_localhost := %s; d_idna := %s; d_puny := %s |}",
-		uf, up, pacRes, directRes, cs(d.Mode), coqfmt.Bool(isLH), idnaT, punyT)
+	return fmt.Sprintf("{| d_upfunc := %s; d_upstream := %s; d_pac := %s; d_direct := %s; d_lh_mode := %s; d_is_localhost := %s; d_idna := %s; d_puny := %s; d_aliases := %s |}",
+		uf, up, pacRes, directRes, cs(d.Mode), coqfmt.Bool(isLH), idnaT, punyT, coqfmt.StrList(hostAliases))
 }
 
 // oracle answers for ONE request: what the PAC script returns for the URL the implementation passed to the
@@ -784,9 +792,24 @@ func main() {
 	}
 	os.Unsetenv("NO_PROXY")
 	os.Unsetenv("no_proxy")
+	// the hosts file the proxy reads (hostsfile.LocalhostAliases opens the Location variable of the
+	// kevinburke/hostsfile library): this machine's file plus loopback aliases written with capital letters,
+	// an IPv6 loopback alias and a record that is not a loopback address
+	{
+		sys, _ := os.ReadFile(kbhosts.Location)
+		hostsPath := filepath.Join(*out, "hosts")
+		extra := "\n127.0.0.1\tDESKTOP-7QK Dev-Box.Local lowalias\n::1\tIp6-Loop-C05\n127.0.1.1\tMixed.Case.Example\n10.9.8.7\tNotLocal-C05\n"
+		if err := os.WriteFile(hostsPath, append(sys, extra...), 0o644); err != nil {
+			panic(err)
+		}
+		kbhosts.Location = hostsPath
+	}
 	m := meta{ShardSize: 400, Counts: map[string]int{}, Dist: map[string]int{}}
 	ss := &shardSet{dir: *out, size: m.ShardSize}
 	if *replay != "" {
+		if a, err := hostsfile.LocalhostAliases(); err == nil {
+			hostAliases = a
+		}
 		doReplay(*replay, ss, &m)
 		m.Shards = ss.shards
 		writeMeta(*out, m)
@@ -794,6 +817,11 @@ func main() {
 	}
 	r := rng.New(*seed)
 	thorough := *tier == "thorough"
+	if a, err := hostsfile.LocalhostAliases(); err == nil {
+		hostAliases = a
+	} else {
+		panic(err)
+	}
 
 	// ---- D0
 	splitLen, splitRandom := 4, 1500
@@ -1202,6 +1230,13 @@ func runConfigs(r *rng.R, nF, nE int, ss *shardSet, m *meta) {
 		{Upstream: "http://pa.test:3128", Mode: "direct", Direct: []string{`^origin\.test$`, `direct`}, IDNA: true},
 		{PAC: &pacDesc{Table: map[string]string{}, Default: "PROXY pb.test:8443"}, Mode: "direct", Direct: []string{`origin\.test`}, IDNA: true},
 		{Upstream: "socks5://pa.test:1080", Mode: "allow", Direct: []string{`-origin`, `\.test$`}, IDNA: true, MITM: true},
+		// loopback aliases of the hosts file, written there with capitals, in mode direct
+		{Upstream: "http://pa.test:3128", Mode: "direct", Aliases: true},
+		{PAC: &pacDesc{Table: map[string]string{}, Default: "SOCKS5 pa.test:1080"}, Mode: "direct", Aliases: true},
+		// two different SOCKS5 proxies selected by target (CONNECT sequences in both orders on one instance)
+		{PAC: &pacDesc{Table: map[string]string{"origin.test": "SOCKS5 pa.test:1080", "other.test": "SOCKS5 pb.test:1081", "www.direct.test": "PROXY pa.test:3128"}, Default: "SOCKS5 10.9.9.9:1080"}, Mode: "allow", Socks2: true},
+		{PAC: &pacDesc{Table: map[string]string{}, Default: "DIRECT", ByURL: map[string][3]string{"origin.test": {":443", "SOCKS5 pa.test:1080", "SOCKS5 pb.test:1081"}}}, Mode: "allow", Socks2: true},
+		{UpFunc: "socks5://pa.test:1080", UpFuncByHost: map[string]string{"other.test": "socks5://pb.test:1081", "localhost": "https://pb.test:8443"}, Mode: "allow", Socks2: true},
 		{Mode: "allow", Rules: chainedRules[0]},
 		{Mode: "allow", Rules: chainedRules[1]},
 		{Upstream: "http://pa.test:3128", Mode: "allow", Rules: chainedRules[2]},
@@ -1230,6 +1265,25 @@ func runConfigs(r *rng.R, nF, nE int, ss *shardSet, m *meta) {
 				{Kind: 0, URLHost: h}, {Kind: 2, URLHost: h + ":80"}, {Kind: 3, URLHost: h + ":80"}, {Kind: 0, URLHost: h + ":80"}, {Kind: 1, URLHost: h + ":80"}}})
 			jb.f = append(jb.f, fJSON{Kind: "func", Cfg: d, ReqKind: 0, Scheme: "http", URLHost: h},
 				fJSON{Kind: "func", Cfg: d, ReqKind: 1, Scheme: "", URLHost: h + ":443"})
+		}
+		if d.Aliases {
+			for si, h := range []string{"DESKTOP-7QK", "desktop-7qk", "Dev-Box.Local", "ip6-loop-c05", "MIXED.case.example", "desktop-7qk.", "notlocal-c05", "desktop-7qkx"} {
+				jb.e = append(jb.e, eJSON{Kind: "e2e", Cfg: d, SameConn: si%2 == 0, Reqs: []reqSpec{
+					{Kind: 0, URLHost: h}, {Kind: 2, URLHost: h + ":443"}, {Kind: 1, URLHost: h + ":443"}}})
+				jb.f = append(jb.f, fJSON{Kind: "func", Cfg: d, ReqKind: 0, Scheme: "http", URLHost: h},
+					fJSON{Kind: "func", Cfg: d, ReqKind: 1, Scheme: "", URLHost: h + ":443"})
+			}
+		}
+		if d.Socks2 {
+			orders := [][]string{{"origin.test", "other.test", "origin.test", "localhost"}, {"other.test", "origin.test", "localhost", "other.test"}}
+			for oi, hs := range orders {
+				var reqs []reqSpec
+				for _, h := range hs {
+					reqs = append(reqs, reqSpec{Kind: 1, URLHost: h + ":443"}, reqSpec{Kind: 1, URLHost: h + ":80"})
+				}
+				jb.e = append(jb.e, eJSON{Kind: "e2e", Cfg: d, SameConn: false, Reqs: reqs})
+				_ = oi
+			}
 		}
 		if d.IDNA {
 			for _, h := range []string{"\u24de\u24e1igin.test", "\u24dbocalhost", "www.\u24d3irect.test", "\uff4f\uff54\uff48\uff45\uff52.test", "origin.test.", "\u24de\u24e1igin.test.", "localhost."} {
